@@ -10,7 +10,7 @@ from pathlib import Path
 import lang_common as LC
 
 PATHS = ["a.py", "d/b.js", "d/c.py", "d/e.ts"]      # b.js and e.ts take byte-identical contents: two languages, one checksum
-CONTENT_IDS = [2, 16, 31, 70, 71]      # 70 and 71: files larger than 64 KiB that differ only in their last bytes
+CONTENT_IDS = [2, 16, 31, 40, 70, 71]      # 40: two functions of 20 lines each; 70 and 71: files larger than 64 KiB that differ only in their last bytes
 
 
 def content_text(path, cid):
@@ -18,6 +18,10 @@ def content_text(path, cid):
     pad = ""
     if cid >= 70:
         pad = ("# generated table, do not edit\n" if ext == "py" else "// generated table, do not edit\n") * 2300    # > 64 KiB
+    if cid == 40:          # equal lengths: the order of the two must be the source order in every scan
+        if ext == "py":
+            return "def alpha():\n" + "    x = 1\n" * 19 + "def beta():\n" + "    y = 2\n" * 19
+        return "function alpha() {\n" + "  x = 1;\n" * 18 + "}\n" + "function beta() {\n" + "  y = 2;\n" * 18 + "}\n"
     if ext == "py":
         return pad + "def f():\n" + "    x = 1\n" * (cid - 1)
     return pad + "function f() {\n" + "  x = 1;\n" * (cid - 2) + "}\n"
@@ -94,7 +98,7 @@ def entries_tree(rep):
     out = []
     for p, e in rep["codebase"]["files"].items():
         vals = [m["value"] for m in e["measurements"]]
-        out.append([p.split("/"), vals[0] if vals else 0, e["language"], vals])
+        out.append([p.split("/"), sum(vals) if vals else 0, e["language"], vals])     # content id = total length (40 = 20 + 20)
     return out
 
 
